@@ -85,10 +85,13 @@ class BaseFiles(Generic[Interface]):
         if if_none_match == "*":
             return True
 
-        if if_none_match.startswith("W/"):
-            if_none_match = if_none_match[2:]
+        def opaque_tag(item: str) -> str:
+            item = item.strip()
+            if item.startswith("W/"):  # weak comparison: the prefix is ignored
+                item = item[2:]
+            return item.strip('"')
 
-        return any(etag == i.strip().strip('"') for i in if_none_match.split(","))
+        return any(etag == opaque_tag(i) for i in if_none_match.split(","))
 
     def if_modified_since(self, last_modified: float, if_modified_since: str) -> bool:
         try:
